@@ -406,6 +406,36 @@ def apply_edits(fn_name, sig2, body2, rewrites, inserts, notes):
         if where == "start":
             body2 = "{\n" + text + body2[1:]
             continue
+        if where in ("before@all", "after@all"):
+            if body2.count(anchor) < 1:
+                raise LostAnchor("%s: anchor %r not found" % (fn_name, anchor))
+            out, k = "", 0
+            while True:
+                j = body2.find(anchor, k)
+                if j < 0:
+                    out += body2[k:]
+                    break
+                if where == "before@all":
+                    ls = body2.rfind("\n", 0, j) + 1
+                    out += body2[k:ls] + text + body2[ls:j + len(anchor)]
+                else:
+                    out += body2[k:j + len(anchor)] + "\n" + text
+                k = j + len(anchor)
+            body2 = out
+            continue
+        if where == "loopinv@all":
+            if body2.count(anchor) < 1:
+                raise LostAnchor("%s: anchor %r not found" % (fn_name, anchor))
+            k = 0
+            while True:
+                k = body2.find(anchor, k)
+                if k < 0:
+                    break
+                k2 = find_body_open(body2, k + len(anchor))
+                head = body2[:k2].rstrip()
+                body2 = head + "\n" + text + body2[k2:]
+                k = len(head) + len(text) + 1
+            continue
         first = where.endswith("@first")
         if first:
             where = where[:-6]
@@ -710,11 +740,12 @@ def _parse_fn_block(block):
             flush()
             cur = ("spec", None)
             continue
-        m = re.match(r'insert (before|after|loopinv)( first)? "(.*)":$', st)
+        m = re.match(r'insert (before|after|loopinv)( first| all)? "(.*)":$', st)
         if m:
             flush()
             # `first`: the anchor may occur several times, the first occurrence is meant (robust against edits that add more)
-            cur = (m.group(1) + ("@first" if m.group(2) else ""), m.group(3).replace('\\"', '"'))
+            # `all` (loopinv only): the same clauses go to every loop whose header starts with the anchor (twin loops)
+            cur = (m.group(1) + ("@first" if m.group(2) == " first" else "@all" if m.group(2) == " all" else ""), m.group(3).replace('\\"', '"'))
             continue
         if st == "insert start:":
             flush()
